@@ -161,6 +161,7 @@ class Scenario:
 
         cur_req = [0]
         self.delivered_reqs = []
+        self.delivered_count = [0]     # ordinal of the items put into socket queues (compared with World.recv_count)
 
         def deliver(sock, item, when_delay, tag):
             loop = loop_of()
@@ -172,7 +173,8 @@ class Scenario:
                     return      # datagrams still in flight when their request has completed are lost (see history.py)
                 sock.rx.append(item)
                 delivered.append((world.now, tag, sock.fd))
-                self.delivered_reqs.append((world.now, req_of_item))
+                self.delivered_count[0] += 1
+                self.delivered_reqs.append((world.now, req_of_item, self.delivered_count[0]))
             loop.call_later(when_delay, cb)
 
         def on_send(sock, data, n):
